@@ -98,6 +98,15 @@ def call_family(depth):
                                                {"op": "push", "v": ["n", 10 * (d + 1) + 1]},
                                                {"op": "push", "v": ["n", 10 * (d + 1) + 2]},
                                                {"op": "ret", "r": p}])
+                        # Lua callees whose results are locals followed by live non-nil locals / dirty
+                        # registers (a result list padded by 1, 2, .. must be padded with nil, never
+                        # with the callee's next register), through EVERY call API
+                        if pre == 1:
+                            shapes = ["dirty"] + (["local", "midlocal", "param"] if p == 1 else [])
+                            for shape in shapes:
+                                for apisel in (range(4) if prot else range(2)):
+                                    out.append(base + [{"op": "callL", "prot": prot, "args": args, "nret": nret, "p": p,
+                                                        "fail": False, "shape": shape, "apisel": apisel}])
                     # failing callees (protected here, or caught by an enclosing protected call)
                     if prot or depth > 1:
                         out.append(base + [{"op": "callL", "prot": prot, "args": args, "nret": nret, "p": 0, "fail": True}])
@@ -677,6 +686,7 @@ ASSUMPTIONS = [
     "excluded as programmer errors: Pop(k>n) (raises 'register underflow'), Insert(v,i>n+1) (leaves holes), pseudo-indices, a host function returning more values than its list holds, Call with fewer than nargs+1 values",
     "Insert with a negative index may resolve it before or after the insertion (both admitted; the API does not say)",
     "replay configurations: root host function under one or two Lua/Go layers above 3-7 (or ~100, growing registry) top-level values, the top level itself (base 0), and the same layers inside a coroutine; the two-layer configuration uses Options.MinimizeStackMemory",
+    "Lua callees of the call-contract family: plain, results in local registers followed by live non-nil locals (single local / middle local / parameter returned in place) and dirty registers above the results, each through Call, CallByParam, PCall, PCall+errfunc, CallByParam{Protect} and {Protect,Handler} for every (nargs, NRet, produced); GPCall takes host functions only",
     "ApiStackImpl transcribes Go->Go calls (callR, pushCallFrame IsG, callGFunction, PCall's recovery); Lua frames between host activations exist only in the replay, not in the MC model",
     "MC bounds: list length <= 3, index -5..5, depth <= 2 (quick) / 3 (thorough), NRet in {-1,0..3}, nargs/produced 0..3; simulation histories use list length <= 6, depth <= 4, 40 operations",
     "object part: one operand world, two sets of handler results (numbers, numeric strings, strings, booleans, nil, tables/userdata with and without metatables, function and table valued handlers, a self-referential __index loop); error messages are not compared, only error-ness; Concat/ObjLen results the Go result type cannot carry (non-string / non-number handler results) are compared on handler calls only",
